@@ -176,7 +176,7 @@ def reset_server():
     fsrv = s["mod"]
     for c in list(getattr(fsrv, "sessions", {}).values()):
         with contextlib.suppress(Exception):
-            c._duck_conn.close()  # noqa: SLF001
+            observe.engine_conn(c).close()
     with contextlib.suppress(Exception):
         fsrv.shared_fs.duck_conn.close()
     importlib.reload(fsrv)
@@ -1058,7 +1058,7 @@ def _sweep_setup(fam, base, idx):
 
     def fill(fs, ic, hc):
         fsrv = server()["mod"]
-        for duck in (ic._duck_conn, fsrv.sessions[hc.rest.token]._duck_conn):  # noqa: SLF001
+        for duck in (observe.engine_conn(ic), observe.engine_conn(fsrv.sessions[hc.rest.token])):
             raw = duck.cursor()
             raw.execute(f"create table {DB}.{SCHEMA}.SW (V {ducktype})")
             raw.register("c17_sweep_src", tbl)
@@ -1168,7 +1168,7 @@ def ground_truth(live):
             out.append(None)
             continue
         st = observe.session_state(conn)
-        raw = conn._duck_conn.cursor()  # noqa: SLF001
+        raw = observe.engine_conn(conn).cursor()
         try:
             tabs, data = _light_catalog(raw)
         finally:
